@@ -1,4 +1,5 @@
 import RedactVerif.Props.L2
+import RedactVerif.Props.FactsClassify
 /-
 C17 — a registered error hook renders every error operand, except under Unsafe.
 
